@@ -21,7 +21,7 @@ var pinFiles = map[string][]string{
 	// every non-generated Go file a property's anchors name (properties.jsonl) whose functions a model mirrors or relies on
 	"C01": {"json.go", "eventversion.go:CheckCanonicalJSON"},
 	"C02": {"signing.go", "json.go", "spec/base64.go"},
-	"C03": {"event_builder.go", "eventV1.go", "eventV2.go", "eventV3.go", "eventcrypto.go", "pdu.go"},
+	"C03": {"event_builder.go", "eventV1.go", "eventV2.go", "eventV3.go", "eventcrypto.go", "pdu.go", "event.go", "json.go:EnforcedCanonicalJSON,verifyEnforcedCanonicalJSON,CanonicalJSON,CanonicalJSONAssumeValid"},
 	"C04": {"eventcrypto.go", "eventV1.go", "eventV2.go", "eventV3.go", "redactevent.go"},
 	"C05": {"redactevent.go", "eventV1.go:Redact", "eventV2.go:Redact", "eventV3.go:Redact", "eventcrypto.go", "eventversion.go:RedactEventJSON"},
 	"C06": {"eventcrypto.go", "redactevent.go", "keyring.go", "keys.go"},
